@@ -264,6 +264,10 @@ func (s *nsSim) addNode(ca []*nsCA, id *nsIdent, udpAddr netip.AddrPort, overrid
 	}
 	n.ctrl, n.cfg = ctrl, c
 	n.rawCfg = string(cb)
+	// advertise only the simulated underlay address to lighthouses, not whatever interfaces the
+	// machine running the check happens to have
+	adv := udpAddr.Addr()
+	ctrl.SetLocalAddrsFn(func(*LocalAllowList) []netip.Addr { return []netip.Addr{adv} })
 	s.nodes = append(s.nodes, n)
 	s.startPumps(n)
 	return n, nil
